@@ -5,6 +5,10 @@ proofs : lean/PyAbel/Props/C11.lean (StepAnalytical and GaussianAnalytical: abel
          parameter value; built on Lemmas/Abel.lean and Mathlib's Gaussian integral)
 K      : StepAnalytical / GaussianAnalytical arrays vs the closed forms the theorems are about (evaluated in numpy from
          the theorem statements: 2A₀(hc(r₂²−x²) − hc(r₁²−x²)), σ√π A₀ e^{−x²/σ²})
+         lean/PyAbel/Props/C11Profiles.lean (TransformPair profiles 1, 2, 3, 5, 7: the coded `projection` expression, branch
+         by branch, is 2∫ source(√(x²+z²)) dz for every 0 < x < 1 — corollaries of C10.polynomial_abel)
+K      : … and the driver op `profile k x` (Model/Profiles.lean, the expressions the theorems are about) vs
+         abel.tools.transform_pairs.profile<k> at random and special radii (breakpoints, the TransformPair end offsets)
 S      : scipy line-of-sight quadrature of `func` vs `abel` for every class: Step, Gaussian, Polynomial wrappers,
          TransformPair profiles 1-7 at many r, SampleImage names x sizes x sigma / temperature / tolerance; grid facts
          (r symmetric, dr, quadrant layout)
@@ -14,7 +18,7 @@ import json
 import numpy as np
 from scipy.integrate import quad
 
-from harness.common import Check, seed, source_fingerprint
+from harness.common import Check, seed, source_fingerprint, drive, f2h, h2arr
 from harness.methods import quiet
 
 
@@ -70,6 +74,29 @@ def correspondence(ck, tier):
                 np.abs(g.abel - sigma * np.sqrt(np.pi) * A0 * np.exp(-g.r ** 2 / sigma ** 2)).max() > 1e-13 * abs(A0) * sigma:
             ck.disagree("K.closed-forms", dict(cls="GaussianAnalytical", n=n, sigma=sigma, A0=A0), "Gaussian pair differs from the closed forms")
     ck.sample(dict(suite="K.closed-forms", example=dict(n=n, r_max=rmax, r1=r1, r2=r2, A0=A0)))
+    # the modelled transform pairs: Lean expressions vs the shipped functions
+    from abel.tools import transform_pairs
+    from abel.tools.analytical import TransformPair
+    lines, refs = [], []
+    for k in (1, 2, 3, 5, 7):
+        xs = list(rng.uniform(1e-6, 1, size=60 if tier == "quick" else 600)) + [0.25, 0.5, np.nextafter(0.25, 1), np.nextafter(0.5, 1), 1e-8, 1 - 1e-8]
+        tp = quiet(TransformPair, int(rng.integers(5, 200)), profile=k)         # the class: same functions on its own grid
+        grid = tp.r.copy()
+        grid[0] = 1.0e-8
+        grid[-1] -= 1.0e-8
+        for j, x in enumerate(xs + [float(v) for v in grid]):
+            ck.count(("K.profile", k, min(int(x * 10), 9)), suite="K.profiles")
+            lines.append(f"profile {k} {f2h(x)}")
+            if j < len(xs):
+                src, prj = getattr(transform_pairs, f"profile{k}")(np.array([x]))
+                refs.append((k, float(x), float(src[0]), float(prj[0])))
+            else:
+                refs.append((k, float(x), float(tp.func[j - len(xs)]), float(tp.abel[j - len(xs)])))
+    for (k, x, src, prj), out in zip(refs, drive(lines)):
+        got = h2arr(out.split()[3:]) if out.startswith("ok") else np.array([np.nan, np.nan])
+        if not (abs(got[0] - src) <= 1e-13 * max(1.0, abs(src)) and abs(got[1] - prj) <= 1e-13 * max(1.0, abs(prj))):
+            ck.disagree("K.profiles", dict(profile=k, r=x, source=src, projection=prj, model=got.tolist()),
+                        f"profile{k}({x!r}) = ({src!r}, {prj!r}) but the Lean expressions give {got.tolist()}")
 
 
 def oracle(ck, tier, deep):
@@ -222,12 +249,15 @@ def run(tier):
                       "x sigma / temperature / tol at random pixels (exact for Gaussian and O2, within 1.05·tol·ΣA·chord otherwise); "
                       "grid and layout facts. distinct = (suite, class/profile/name, parity/decile)")
     ck.cov["trusted_base"] = ["Lean 4.33 kernel", "axioms propext/Classical.choice/Quot.sound",
-                              "theorems cover StepAnalytical and GaussianAnalytical; profiles 1-7 and sample images are quadrature-backed",
+                              "theorems cover StepAnalytical, GaussianAnalytical and TransformPair profiles 1, 2, 3, 5, 7 (as real functions; tied to the "
+                              "code by evaluating the Lean expressions in Float next to the shipped functions); profiles 4 and 6 and the "
+                              "sample images are quadrature-backed",
                               "sample images: the source function is rebuilt from the class's own peak table (checked against `func` at the "
                               "tested pixels) and integrated by scipy quad", "ApproxGaussian deviation bound (C10, measured)"]
-    ck.cov["unproved_clauses"] = ["TransformPair profiles 1-7 (quadrature)", "SampleImage within tolerance (quadrature)"]
+    ck.cov["unproved_clauses"] = ["TransformPair profiles 4 (rounded published coefficients) and 6 (not polynomial): quadrature", "SampleImage within tolerance (quadrature)"]
     ck.cov["source_fingerprint"] = source_fingerprint(["abel/tools/analytical.py", "abel/tools/transform_pairs.py"])
     ck.proofs("PyAbel.Props.C11")
+    ck.proofs("PyAbel.Props.C11Profiles")
     correspondence(ck, tier)
     oracle(ck, tier, deep or bool(ck.broken))
     return ck.finish()
